@@ -751,20 +751,20 @@ Qed.
    The trigger compares root-zone totals that root_zone_water rounds to 0.01 mm per compartment, whereas the
    amount added is computed from the unrounded contents; hence IrrNet can be slightly negative, but never by
    more than 0.01 mm per compartment of the root zone. *)
-Fixpoint plan_sum (g : Plan -> R -> R) (plan : list Plan) (th : list R) : R :=
+Fixpoint plan_sum (g : @Plan R -> R -> R) (plan : list (@Plan R)) (th : list R) : R :=
   match plan, th with x :: pl, t :: th' => g x t + plan_sum g pl th' | _, _ => 0 end.
 
-Definition g_act (x : Plan) (t : R) : R := pl_rf x * 1000 * t * c_dz (pl_comp x).
-Definition g_fc (x : Plan) (_ : R) : R := pl_rf x * 1000 * c_th_fc (pl_comp x) * c_dz (pl_comp x).
-Definition g_wp (x : Plan) (_ : R) : R := pl_rf x * 1000 * c_th_wp (pl_comp x) * c_dz (pl_comp x).
-Definition rnd (g : Plan -> R -> R) (x : Plan) (t : R) : R := Rround 2 (g x t).
-Definition g_irr (smt : R) (x : Plan) (t : R) : R :=
+Definition g_act (x : @Plan R) (t : R) : R := pl_rf x * 1000 * t * c_dz (pl_comp x).
+Definition g_fc (x : @Plan R) (_ : R) : R := pl_rf x * 1000 * c_th_fc (pl_comp x) * c_dz (pl_comp x).
+Definition g_wp (x : @Plan R) (_ : R) : R := pl_rf x * 1000 * c_th_wp (pl_comp x) * c_dz (pl_comp x).
+Definition rnd (g : @Plan R -> R -> R) (x : @Plan R) (t : R) : R := Rround 2 (g x t).
+Definition g_irr (smt : R) (x : @Plan R) (t : R) : R :=
   pl_rf x * ((c_th_wp (pl_comp x) + smt / 100 * (c_th_fc (pl_comp x) - c_th_wp (pl_comp x))) - t) * 1000 * c_dz (pl_comp x).
 
 Lemma rround2_err x : - (5/1000) <= Rround 2 x - x <= 5/1000.
 Proof.
   pose proof (Rround_err 2 x) as H. replace (/ 2 / pow10 2) with (5/1000) in H by (unfold pow10; simpl; lra).
-  apply Rabs_le_inv in H. exact H.
+  unfold Rabs in H. destruct (Rcase_abs (Rround 2 x - x)); lra.
 Qed.
 
 Lemma plan_sum_le g1 g2 e plan : (forall x t, g1 x t <= g2 x t + e) -> 0 <= e ->
@@ -828,7 +828,8 @@ Proof.
     destruct (tr_netirr _ _ _ _ _ _) as [[ths irr1]|] eqn:E; [|discriminate].
     intros [= _ <-].
     apply (IH Hok' th thc' _ (c_th_wp c) (c_th_fc c)) in E.
-    + rewrite E. cbn [plan_sum]. rewrite Hthc. unfold g_irr at 1. fold c. unfold own. lra.
+    + assert (Hgi : g_irr smt x t = pl_rf x * (own - t) * 1000 * c_dz c) by reflexivity.
+      rewrite E, Hthc. cbn [plan_sum]. rewrite Hgi. lra.
     + destruct (pl <? c_layer c)%Z eqn:El; [exact Hl2|].
       apply Z.ltb_ge in El. destruct Hl1 as [Hl1|[Hq _]]; [lia|]. rewrite <- Hq. exact Hl2.
     + left. exact Hthc.
@@ -849,4 +850,73 @@ Proof.
   - destruct (_ <=? 0)%Z; [discriminate|]. destruct (top_loop _ _ _ _ _ _) as [[act fc] wp].
     revert H. intros [= <-]. cbn. rnum. repeat split; reflexivity.
   - revert H. intros [= <-]. cbn. rnum. repeat split; reflexivity.
+Qed.
+
+Lemma tr_rootdepth_ge zr zmin : 1/100 <= zmin -> 1/100 <= tr_rootdepth zr zmin.
+Proof.
+  intros H. unfold tr_rootdepth. rnum.
+  assert (H1 : Rround 2 (1/100) = 1/100).
+  { replace (1/100) with (IZR 1 / pow10 2) by (unfold pow10; simpl; lra). apply Rround_IZR. }
+  rewrite <- H1 at 1. apply Rround_mono. unfold pmax. rnum. destruct (Rltb_spec zr zmin); lra.
+Qed.
+
+Theorem irrnet_lower p ztop k m smt s et0 co2c co2r gs gdd o :
+  tr_wf p k s -> 1/100 <= k_Zmin k -> (m = 4%Z -> 0 <= smt <= 100 /\ layers_ok p) ->
+  transpiration p ztop k m smt s et0 co2c co2r gs gdd = Some o ->
+  - (1/100) * INR (tr_comp_sto p (tr_rootdepth (s_z_root s) (k_Zmin k))) <= o_IrrNet o.
+Proof.
+  intros Hwf Hzm Hm4.
+  set (rd := tr_rootdepth (s_z_root s) (k_Zmin k)).
+  assert (Hn : - (1/100) * INR (tr_comp_sto p rd) <= 0) by (pose proof (pos_INR (tr_comp_sto p rd)); nra).
+  destruct gs; [|unfold transpiration; intros [= <-]; cbn; rnum; exact Hn].
+  pose proof (tr_wf_plan p k s m Hwf) as Hplan. destruct Hwf as [Hw Hg HT HB Hr Hz Hl Ha Hds Hdi].
+  tr_inv. fold rd in Et, Hplan, El.
+  destruct (tr_plan_prefix k m (s_r_cor s) rd (tr_comp_sto p rd) p (k_SxTop k)) as [p2 Hp2].
+  set (plan := tr_plan _ _ _ _ _ _ _) in *.
+  revert Et. unfold tr_tail. rnum.
+  destruct (Z.eq_dec m 4) as [E4|N4]; [|apply Z.eqb_neq in N4; rewrite N4; cbn [andb]; intros [= _ <- _ _ _]; exact Hn].
+  destruct (Hm4 E4) as [Hs Hly].
+  destruct ((m =? 4)%Z && Rltb 0 _); [|destruct (_ && _); intros [= _ <- _ _ _]; exact Hn].
+  destruct (root_zone_water p (s_z_root s) th1 ztop (k_Zmin k) (k_Aer k)) as [r2|] eqn:Er2; [|discriminate].
+  destruct (Rltb_spec (rz_Act r2) (rz_WP r2 + smt / 100 * (rz_FC r2 - rz_WP r2))) as [Hlt|_]; cbv beta iota;
+    [|intros [= _ <- _ _ _]; exact Hn].
+  destruct (tr_netirr _ _ _ _ _ _) as [[t2 i2]|] eqn:En; [|discriminate]. intros [= _ <- _ _ _].
+  (* the amount added *)
+  assert (Hly' : layers_from 0 0 0 (map pl_comp plan)) by (unfold layers_ok in Hly; rewrite Hp2 in Hly; eapply layers_from_app; exact Hly).
+  pose proof (tr_netirr_sum smt plan Hplan _ _ _ 0 0 _ _ _ Hly' (or_intror eq_refl) En) as Hsum.
+  rewrite plan_sum_irr in Hsum.
+  (* the trigger, in terms of the rounded sums *)
+  destruct (rz_fields _ _ _ _ _ _ _ Er2) as [a [Hloop [HA [HF HW]]]]. fold rd in Hloop, HA, HF, HW.
+  pose proof (rz_loop_sums k m (s_r_cor s) rd (k_Aer k) p 0 (k_SxTop k) _ _ _ Hw Hg Hloop) as Hsums.
+  cbv zeta in Hsums. fold plan in Hsums. cbn [a_act a_fc a_wp] in Hsums. destruct Hsums as [S1 [S2 S3]].
+  pose proof (tr_rootdepth_ge (s_z_root s) _ Hzm) as Hrd. fold rd in Hrd.
+  assert (Hd : 0 < rd * 1000) by lra.
+  rewrite HA, HF, HW in Hlt. set (d := rd * 1000) in *.
+  set (Wact := if Rltb (a_act a) 0 then 0 else a_act a) in *.
+  assert (Hact : a_act a <= Wact) by (unfold Wact; destruct (Rltb_spec (a_act a) 0); lra).
+  assert (Htrig : Wact < a_wp a + smt / 100 * (a_fc a - a_wp a)).
+  { apply (Rmult_lt_compat_r d) in Hlt; [|exact Hd].
+    replace (Wact / d * d) with Wact in Hlt by (field; lra).
+    replace ((a_wp a / d + smt / 100 * (a_fc a / d - a_wp a / d)) * d) with (a_wp a + smt / 100 * (a_fc a - a_wp a)) in Hlt by (field; lra).
+    exact Hlt. }
+  (* rounding errors: 0.005 mm per term *)
+  assert (He : 0 <= 5/1000) by lra.
+  assert (B1 : plan_sum (rnd g_wp) plan th1 <= plan_sum g_wp plan th1 + 5/1000 * INR (length plan)).
+  { apply plan_sum_le; [|exact He]. intros x t. unfold rnd. pose proof (rround2_err (g_wp x t)). lra. }
+  assert (B2 : plan_sum (rnd g_fc) plan th1 <= plan_sum g_fc plan th1 + 5/1000 * INR (length plan)).
+  { apply plan_sum_le; [|exact He]. intros x t. unfold rnd. pose proof (rround2_err (g_fc x t)). lra. }
+  assert (B3 : plan_sum g_act plan th1 <= plan_sum (rnd g_act) plan th1 + 5/1000 * INR (length plan)).
+  { apply plan_sum_le; [|exact He]. intros x t. unfold rnd. pose proof (rround2_err (g_act x t)). lra. }
+  assert (Hlen : INR (length plan) <= INR (tr_comp_sto p rd)).
+  { apply le_INR. unfold plan. clear. generalize (tr_comp_sto p rd) (k_SxTop k). intros n. revert p.
+    induction n as [|n IH]; intros p sx; [destruct p; simpl; lia|]. destruct p as [|c p]; [simpl; lia|].
+    cbn [tr_plan length]. specialize (IH p (tr_sxbot k (s_r_cor s) rd c)). lia. }
+  set (f := smt / 100) in *. assert (Hf : 0 <= f <= 1) by (unfold f; lra).
+  set (Swp := plan_sum (rnd g_wp) plan th1) in *. set (Sfc := plan_sum (rnd g_fc) plan th1) in *.
+  set (Sact := plan_sum (rnd g_act) plan th1) in *.
+  set (Twp := plan_sum g_wp plan th1) in *. set (Tfc := plan_sum g_fc plan th1) in *. set (Tact := plan_sum g_act plan th1) in *.
+  set (n := INR (length plan)) in *. set (N := INR (tr_comp_sto p rd)) in *.
+  assert (P1 : (1 - f) * (Swp - 5/1000 * n) <= (1 - f) * Twp) by (apply Rmult_le_compat_l; lra).
+  assert (P2 : f * (Sfc - 5/1000 * n) <= f * Tfc) by (apply Rmult_le_compat_l; lra).
+  rewrite S1, S2, S3 in *. rewrite Hsum. lra.
 Qed.
